@@ -33,6 +33,9 @@ func TestMain(m *testing.M) {
 	if binPath != "" {
 		os.Remove(binPath) // the vipnode binary built for the binary-level tests of this process
 	}
+	if childPath != "" {
+		os.Remove(childPath) // the crash child of the C13 tests
+	}
 	os.Exit(code)
 }
 
